@@ -36,7 +36,7 @@ _f("rig/routing_table/utils.py::routing_tree_to_tables")
 # ---- Python placer in place of the default (simulated annealing on the C kernel, which no contract reaches)
 _PIPE = ("constraints", "place_kwargs", "allocate", "allocate_kwargs", "route", "route_kwargs", "core_resource", "sdram_resource")
 _f("rig/place_and_route/wrapper.py::wrapper", types={"machine": MACHINE}, values={"place": "rig/place_and_route/place/hilbert.py::place"},
-   use_defaults=_PIPE + ("reserve_monitor", "align_sdram"))
+   use_defaults=_PIPE)       # (reserve_monitor / align_sdram are arguments: every combination of the two flags is a path)
 _f("rig/place_and_route/wrapper.py::place_and_route_wrapper", values={"place": "rig/place_and_route/place/hilbert.py::place"},
    use_defaults=_PIPE + ("minimise_tables_methods", "sram_resource"))
 # ---- minimisation ---------------------------------------------------------------------------------------------------
@@ -48,7 +48,7 @@ _f("rig/routing_table/minimise.py::minimise_tables")
 # ---- contexts --------------------------------------------------------------------------------------------------------
 # (a context keeps its OWN dictionary and list: Context.update / before_close change them in place, and the controllers pass
 #  the mutable default argument of their constructors down to it)
-_f("rig/utils/contexts.py::Context.__init__", modifies=("self",), owned=("context_arguments", "_before_close"))
+_f("rig/utils/contexts.py::Context.__init__", modifies=("self",), owned=("context_arguments", "_before_close"), properties=("C17", "C18"))
 # ---- the helpers around the pipeline (probing results -> machine model, trees -> tables, table utilities, router internals) -----
 for _t in ("rig/place_and_route/utils.py::build_machine", "rig/place_and_route/utils.py::build_core_constraints",
            "rig/place_and_route/utils.py::build_application_map", "rig/place_and_route/utils.py::build_routing_tables",
